@@ -1051,6 +1051,9 @@ class GroupDomain:
         return GE(a.ty, [self.norm(x * k) for x in a.c], a.tag)
 
     def is_zero(self, a):
+        zp = getattr(self, 'zero_pred', None)
+        if zp is not None:          # generators of finite (symbolic) order: c*P = O iff ord(P) | c
+            return b_and(*[zp(x) for x in a.c])
         return b_and(*[(x == 0) if isinstance(x, int) else simp_bool(x == 0) for x in a.c])
 
     def models(self):
